@@ -16,7 +16,7 @@ import scipy.sparse as sp
 from vf import msmcommon as mc
 from vf import clustercommon as cc
 
-RULE = ('cases = one routine of a 61-entry registry of the numerical API with '
+RULE = ('cases = one routine of a 63-entry registry of the numerical API with '
         'seeded arguments (including the degenerate ones that create masked '
         'cells: zero probabilities, all-zero joint-count blocks, zero rows); '
         'each argument tuple is evaluated 6 times in one process: heap fill '
@@ -88,7 +88,8 @@ def setup(ctx):
             'enspara.tpt.tpt', 'enspara.tpt.path',
             'enspara.info_theory.mutual_info', 'enspara.info_theory.entropy',
             'enspara.info_theory.libinfo', 'enspara.ra.ra',
-            'enspara.geometry.rotamer', 'enspara.cards.disorder']
+            'enspara.geometry.rotamer', 'enspara.cards.disorder',
+            'enspara.info_theory.exposons']
 
     class NS:
         pass
@@ -470,6 +471,24 @@ def build_registry():
         lambda rng: ((g_ra(rng),), {}, False))
 
     # --- rotamers / transitions
+    def g_top(rng):
+        import mdtraj as md
+        top = md.Topology()
+        ch = top.add_chain()
+        for r in range(int(rng.integers(2, 6))):
+            res = top.add_residue(['ALA', 'SER', 'VAL', 'LEU'][
+                int(rng.integers(0, 4))], ch)
+            for nm, el in (('N', 'N'), ('CA', 'C'), ('C', 'C'), ('O', 'O'),
+                           ('CB', 'C'), ('HA', 'H'), ('HB1', 'H')):
+                top.add_atom(nm, md.element.get_by_symbol(el), res)
+        return (top,), {}, False
+    reg('exposons.sidechain_atom_ids',
+        lambda top: [np.asarray(x) for x in
+                     E.exposons.get_sidechain_atom_ids(top)], g_top)
+    reg('exposons.condense_sidechain_sasas',
+        lambda sasas, top: E.exposons.condense_sidechain_sasas(sasas, top),
+        lambda rng: (lambda t: ((rng.random((4, t.n_atoms)), t), {}, False))(
+            g_top(rng)[0][0]))
     reg('rotamers', E.rotamer._rotamers, lambda rng: (
         (rng.uniform(0, 360, size=int(rng.integers(1, 80))) + 0.0123,
          [0, 120, 240, 360]), {'buffer_width': int(rng.integers(0, 60))},
@@ -481,6 +500,53 @@ def build_registry():
 
 
 # --------------------------------------------------------------------------
+def refill_in_place(o, depth=0):
+    """Give the argument objects other (still valid) contents WITHOUT
+    creating new objects: square matrices get rows and columns reversed (a
+    relabelling of states), other arrays are reversed along their first
+    axis, topologies get an atom renamed.  Returns True if something
+    changed."""
+    changed = False
+    if isinstance(o, np.ndarray) and o.dtype != object and o.size > 1 and \
+            o.flags.writeable:
+        new = o[::-1, ::-1].copy() if (o.ndim == 2 and
+                                       o.shape[0] == o.shape[1]) \
+            else o[::-1].copy()
+        if not np.array_equal(new, o, equal_nan=o.dtype.kind == 'f'):
+            o[...] = new
+            changed = True
+    elif type(o).__name__ == 'Topology':
+        for atom in o.atoms:
+            if atom.name == 'CB':
+                atom.name = 'HA'        # no longer a side-chain atom
+                changed = True
+                break
+    elif isinstance(o, (list, tuple)) and depth < 3:
+        for x in o:
+            changed = refill_in_place(x, depth + 1) or changed
+    elif isinstance(o, dict) and depth < 3:
+        for x in o.values():
+            changed = refill_in_place(x, depth + 1) or changed
+    return changed
+
+
+def clear_function_caches():
+    import sys
+    n = 0
+    for name, m in list(sys.modules.items()):
+        if not name.startswith('enspara') or m is None:
+            continue
+        for v in list(vars(m).values()):
+            cc_ = getattr(v, 'cache_clear', None)
+            if callable(cc_) and hasattr(v, 'cache_info'):
+                try:
+                    cc_()
+                    n += 1
+                except Exception:  # noqa
+                    pass
+    return n
+
+
 def call(fn, args, kwargs):
     a = copy.deepcopy(args)
     k = copy.deepcopy(kwargs)
@@ -644,6 +710,38 @@ def run_case(ctx, kind, rng, idx):
                     mode, threads, prefix,
                     str(out[2] if out[0] == 'ok' else out)[:300]))
             break
+    # ---- the very same argument objects, refilled in place between two
+    # calls, against fresh copies with the same contents: a result keyed on
+    # the identity of an argument (a memo, an lru_cache) shows here
+    if idx % 2 == 0:
+        a1, k1 = copy.deepcopy(args), copy.deepcopy(kwargs)
+        clear_function_caches()      # these objects are the first ones seen
+        try:
+            with warnings.catch_warnings():
+                warnings.simplefilter('ignore')
+                fn(*a1, **k1)
+        except Exception:  # noqa
+            pass
+        if refill_in_place(a1) | refill_in_place(k1):
+            try:
+                with warnings.catch_warnings():
+                    warnings.simplefilter('ignore')
+                    same = ('ok', canon(fn(*a1, **k1)))
+            except Exception as e:  # noqa
+                same = ('exc', type(e).__name__)
+            # emulate a fresh process for the reference: drop every
+            # functools cache found in the library's modules (a cache keyed
+            # on equality would otherwise serve the copies too)
+            ctx.count('function_caches_cleared', clear_function_caches())
+            fresh, _ = call(fn, a1, k1)
+            ctx.count('refilled_argument_pairs')
+            if same[:2] != fresh[:2]:
+                ctx.violation(
+                    'pure.%s.depends-on-argument-identity' % name,
+                    '%s: called again on the same argument objects after '
+                    'they were given other contents in place, the result '
+                    'differs from a call on fresh copies of those contents'
+                    % name)
     if base[0] == 'exc':
         ctx.count('routine_raised_consistently')
         ctx.seen('consistent_exceptions', '%s:%s' % (name, base[1]))
